@@ -126,6 +126,7 @@ func main() {
 		x := p.NewExec(nil)
 		if os.Getenv("DUMP_POLICY") == "radix" {
 			x = p.NewExec(p.RadixPolicy)
+			x.FieldsWritten = newWE(p).FieldsWritten
 		}
 		paths := x.Summarize(fn)
 		for i, pa := range paths {
